@@ -16,6 +16,7 @@ fn table() -> Arc<Table> {
         OpDesc::bin_un("-", 0, false), // 2
         OpDesc::bin("^", 2, false),    // 3
         OpDesc::un("sin"),             // 4
+        OpDesc::bin("/", 1, false),    // 5
     ])
 }
 
@@ -125,7 +126,9 @@ pub fn replay(case: &serde_json::Value) -> i32 {
     set_table(&t);
     let text = case["text"].as_str().unwrap_or("");
     let mut acc = Acc::default();
-    if case["kind"].as_str() == Some("derived") {
+    if case["kind"].as_str() == Some("triple") {
+        overloaded_triple(intern(case["a"].as_str().unwrap_or("a")), intern(case["b"].as_str().unwrap_or("a")), intern(case["c"].as_str().unwrap_or("a")), &t, &mut acc);
+    } else if case["kind"].as_str() == Some("derived") {
         derived_pair(case["a"].as_str().unwrap_or(""), case["b"].as_str().unwrap_or(""), &t, &mut acc);
     } else {
         check_arity_and_binding(text, &read(text, &t), &t, &mut acc);
@@ -205,6 +208,70 @@ fn derived_pair(ta: &str, tb: &str, t: &Table, acc: &mut Acc) {
     if let Some(m) = bad {
         let kind: String = m.split(':').nth(1).unwrap_or("").chars().take_while(|c| *c != '[' && *c != '{').take(40).collect();
         acc.violate(Violation { signature: format!("derived:{}{kind}", m.split(' ').next().unwrap_or("")), what: m, case: json!({"engine": "c04", "kind": "derived", "a": ta, "b": tb}) });
+    }
+}
+
+/// chains of two overloaded operators on deep expressions (with their neutral-element shortcuts):
+/// ((a o1 b) o2 c) lists the sorted union of the names of a, b and c
+fn overloaded_triple(ta: &'static str, tb: &'static str, tc: &'static str, t: &Table, acc: &mut Acc) {
+    let union = {
+        let mut v: Vec<String> = Vec::new();
+        for s in [ta, tb, tc] {
+            for n in read(s, t).vars() {
+                if !v.contains(&n) {
+                    v.push(n);
+                }
+            }
+        }
+        v.sort();
+        v
+    };
+    acc.evaluations += 1;
+    acc.states += 1;
+    acc.nontrivial += 1;
+    for o1 in 0..6 {
+        for o2 in 0..6 {
+            let r = guard(|| -> Result<Option<Vec<String>>, String> {
+                let a = SDeep::parse(ta).map_err(|e| e.msg().to_string())?;
+                let b = SDeep::parse(tb).map_err(|e| e.msg().to_string())?;
+                let c = SDeep::parse(tc).map_err(|e| e.msg().to_string())?;
+                let ap = |k: usize, x: SDeep<'static>, y: SDeep<'static>| -> exmex::ExResult<SDeep<'static>> {
+                    match k {
+                    0 => x + y,
+                    1 => x - y,
+                    2 => x * y,
+                    3 => x / y,
+                    4 => x.pow(y),
+                    _ => y.pow(x),
+                    }
+                };
+                let Ok(ab) = ap(o1, a, b) else { return Ok(None) };
+                let Ok(abc) = ap(o2, ab, c) else { return Ok(None) };
+                let names = abc.var_names().to_vec();
+                // the same list after conversion to the flat form
+                let fl = SFlat::from_deepex(abc).map_err(|e| e.msg().to_string())?;
+                if fl.var_names() != names.as_slice() {
+                    return Err(format!("flat form lists {:?}, deep form {names:?}", fl.var_names()));
+                }
+                Ok(Some(names))
+            });
+            acc.transitions += 2;
+            let opn = ["+", "-", "*", "/", "pow", "rpow"];
+            let bad = match r {
+                Ok(Ok(Some(names))) if names == union => None,
+                Ok(Ok(Some(names))) => Some(format!("lists {names:?} instead of the sorted union {union:?}")),
+                Ok(Ok(None)) => None,
+                Ok(Err(m)) => Some(m),
+                Err(p) => Some(format!("PANIC {}", panic_site(&p))),
+            };
+            if let Some(m) = bad {
+                acc.violate(Violation {
+                    signature: format!("derived:overloaded-operators:{}", m.split(' ').next().unwrap_or("")),
+                    what: format!("(({ta}) {} ({tb})) {} ({tc}) on deep expressions: {m}", opn[o1], opn[o2]),
+                    case: json!({"engine": "c04", "kind": "triple", "a": ta, "b": tb, "c": tc}),
+                });
+            }
+        }
     }
 }
 
@@ -360,6 +427,29 @@ pub fn run(tier: Tier) -> i32 {
             rep.absorb(a);
         }
         rep.bounds.push(format!("operator application (3 operators) and substitution (every variable) for all {} ordered pairs of a pool of {n} expressions, flat and deep: complete", n * n));
+    }
+    // overloaded operators with neutral-element shortcuts, two steps
+    {
+        let pool: Vec<&'static str> = vec!["a", "B", "{ b}*β", "0", "1", "2", "a-a", "Z1+a", "1-1", "{x y}"];
+        let n = pool.len();
+        let accs = par_ranges(
+            (n * n * n) as u64,
+            4,
+            || {
+                install_panic_hook();
+                set_table(&t);
+            },
+            |st, en, acc| {
+                for i in st..en {
+                    let i = i as usize;
+                    overloaded_triple(pool[i / (n * n)], pool[(i / n) % n], pool[i % n], &t, acc);
+                }
+            },
+        );
+        for a in accs {
+            rep.absorb(a);
+        }
+        rep.bounds.push(format!("((a o1 b) o2 c) for all {} ordered triples of a pool of {n} expressions (incl. 0, 1, 1-1, a-a) and all 36 pairs of overloaded operators (+ - * / pow, both operand orders) on deep expressions, then converted to flat: complete", n * n * n));
     }
     derivative_names(&mut rep);
     rep.finish()
